@@ -215,7 +215,8 @@ def run_unit(unit, rec):
 
     # per-sample weights through register_targets + fit()
     if names["weights"] != "default" and unit["solver"] == 0:
-        Wm = np.outer(1.0 + 0.5 * (np.arange(len(T)) % 3), w)
+        # per-sample weights whose DIRECTION differs from row to row and from the constructor's w
+        Wm = np.array([np.roll(w, k % m) * (1.0 + 0.5 * (k % 3)) + 0.25 * ((np.arange(m) + k) % 2) for k in range(len(T))])
         rec.path()
         rec.trans(2)
         try:
